@@ -444,31 +444,64 @@ func runC09(c *Ctx) {
 
 	// ------------------------------------------------------------------------------------------------ R2
 	c.rule("C09-R2", "after every store to wi, every path to the exit re-slices data to that wi", 10)
+	// resliceFor: the instruction stores data = data[:k] with k the new wi (a load of wi, the stored value itself, or the
+	// same constant), directly or as the unconditional effect of an unexported helper
+	isReslice := func(in ssa.Instruction, val ssa.Value) bool {
+		s2, ok := in.(*ssa.Store)
+		if !ok {
+			return false
+		}
+		if fv, _ := fieldAddrOf(s2.Addr); fv != dataF {
+			return false
+		}
+		sl, ok := stripConv(s2.Val).(*ssa.Slice)
+		if !ok || !loadOfField(sl.X, dataF) || sl.Low != nil || sl.High == nil {
+			return false
+		}
+		if loadOfField(sl.High, wi) {
+			return true
+		}
+		if val == nil {
+			return false
+		}
+		if k1, ok1 := constInt(sl.High); ok1 {
+			if k2, ok2 := constInt(val); ok2 && k1 == k2 {
+				return true
+			}
+		}
+		return stripConv(sl.High) == stripConv(val)
+	}
+	resliceFor := func(val ssa.Value) func(ssa.Instruction) bool {
+		return func(in ssa.Instruction) bool {
+			if isReslice(in, val) {
+				return true
+			}
+			if call, ok := in.(*ssa.Call); ok {
+				if h := call.Call.StaticCallee(); h != nil && in.Parent() != nil && isHelperOf(in.Parent(), h) && len(h.Blocks) > 0 {
+					okh, _ := mustPassAt(h.Blocks[0], 0, func(x ssa.Instruction) bool { return isReslice(x, nil) })
+					return okh
+				}
+			}
+			return false
+		}
+	}
 	for _, fn := range methods {
 		for _, a := range storesTo(fn, wi) {
 			st := a.Instr.(*ssa.Store)
-			ok, why := mustPass(st, func(in ssa.Instruction) bool {
-				s2, ok := in.(*ssa.Store)
-				if !ok {
-					return false
-				}
-				if fv, _ := fieldAddrOf(s2.Addr); fv != dataF {
-					return false
-				}
-				sl, ok := stripConv(s2.Val).(*ssa.Slice)
-				if !ok || !loadOfField(sl.X, dataF) || sl.Low != nil || sl.High == nil {
-					return false
-				}
-				if loadOfField(sl.High, wi) {
-					return true
-				}
-				if k1, ok1 := constInt(sl.High); ok1 {
-					if k2, ok2 := constInt(st.Val); ok2 && k1 == k2 {
-						return true
+			ok, why := mustPass(st, resliceFor(st.Val))
+			if !ok && fn.Parent() == nil && fn.Object() != nil && !fn.Object().Exported() {
+				// the store lives in an unexported helper: judged where the helper is called
+				sites := p.callers(fn)
+				all := len(sites) > 0
+				for _, site := range sites {
+					if okS, _ := mustPass(site.(ssa.Instruction), resliceFor(nil)); !okS {
+						all = false
 					}
 				}
-				return stripConv(sl.High) == stripConv(st.Val)
-			})
+				if all {
+					ok = true
+				}
+			}
 			if !ok {
 				// a constant wi: the matching constant re-slice may as well come first (data[:0]; wi = 0), as long as
 				// nothing touches data in between
@@ -544,17 +577,20 @@ func runC09(c *Ctx) {
 		}{{"Consume", []*types.Var{ri, wi}}, {"Discard", []*types.Var{si, ri, wi}}} {
 			fn := p.Method("sonic", bbT, spec.name)
 			amounts := map[*types.Var]ssa.Value{}
+			keys := map[*types.Var]valKey{}
 			var sites []ssa.Instruction
 			for _, f := range spec.moved {
 				for _, d := range deepStoresTo(fn, f) {
 					if bo, ok := stripConv(d.Store.Val).(*ssa.BinOp); ok && bo.Op == token.SUB && loadOfField(bo.X, f) {
 						amounts[f] = stripConv(d.translate(bo.Y))
+						keys[f] = d.key(bo.Y)
 						sites = append(sites, d.Site)
 					}
 				}
 			}
 			good := len(amounts) == len(spec.moved)
 			var first ssa.Value
+			var firstKey valKey
 			for _, f := range spec.moved {
 				v := amounts[f]
 				if v == nil {
@@ -562,10 +598,18 @@ func runC09(c *Ctx) {
 					continue
 				}
 				if first == nil {
-					first = v
-				} else if !sameAmount(first, v) {
+					first, firstKey = v, keys[f]
+				} else if !sameAmount(first, v) && keys[f] != firstKey {
 					good = false
 				}
+			}
+			if first != nil && firstKey.base != nil && firstKey.path != "" {
+				// the amount as it is spelled in the method itself (for the memmove comparison below)
+				eachInstr(fn, func(in ssa.Instruction) {
+					if v, ok := in.(ssa.Value); ok && keyOf(v, nil) == firstKey {
+						first = v
+					}
+				})
 			}
 			// the memmove over the removed range runs on every path that shifts the cursors, up to the end of the buffer
 			moved := false
